@@ -375,6 +375,10 @@ def gen_dataset(prop: str, idx: int) -> dict:
                              "shape": _shape(t["spans"])} for t in traces},
         "faults": faults,
     }
+    if SPECIAL_BASE + 600 <= idx < LAYOUT_BASE:
+        # the application name is mapped from the span attribute alone (with
+        # the two-key mapping an empty value still yields "_1.0")
+        ds["app_single_key"] = True
     if idx >= LAYOUT_BASE:
         # own PRNG: the content draws above are those of an ordinary data set
         lr = random.Random(core.derive(DATA_SALT, prop, idx, "layout"))
@@ -493,6 +497,13 @@ def write_config(ds: dict, root: str, data_dir: str, db_path: str,
 
     lay = ds.get("layout", "")
     single = lay.startswith("single_file")
+    fmap = FIELD_MAPPING
+    if ds.get("app_single_key"):
+        fmap = dict(FIELD_MAPPING, application_name={
+            "key_paths": [FIELD_MAPPING["application_name"]["key_paths"][0]],
+            "key_value": ["app.service"],
+            "value_paths": ["value.Value.StringValue"],
+            "value_type": "string"})
     cfg = {
         "ingest_data": {"data_source": "json", "data_holder": "sql"},
         "data_holders": {"sql": {
@@ -504,7 +515,7 @@ def write_config(ds: dict, root: str, data_dir: str, db_path: str,
             "filepath": os.path.join(data_dir, SINGLE_FILE) if single
             else None,
             "json_per_line": "per_line" in lay,
-            "field_mapping": FIELD_MAPPING}},
+            "field_mapping": fmap}},
         "sequencer": ds.get("sequencer", {}),
     }
     p = os.path.join(root, f"config_{tag}.yaml")
